@@ -34,6 +34,10 @@ HD4 == <<S1(2, 0, 2)>>
 HD5 == <<S1(2, Missing, 1), S1(4, Missing, 2)>>   \* no label at all (an only_labeled window must become empty)
 MCDataSets == {HD1, HD2, HD3, HD4}
 MCHistDataSets == {HD1, HD2, HD3, HD5}   \* data sets of the generated histories
+\* data sets in which ONE class is observed (whatever a classifier derives from the set of observed classes while
+\* predicting - positions of the wrapped estimator's probability columns - must not survive the next fit)
+HD6 == <<S1(6, 1, 1), S1(5, 1, 2)>>
+MCFlipDataSets == {HD4, HD6, HD1}
 
 \* --- all small data sets (C12): ids {1,2}, labels {0,1,Missing}, the
 \* first sample with weights {1,2}
